@@ -79,11 +79,7 @@ func parseUriParameters(s string, sipUri *SIPURI) error {
 	for _, param := range strings.Split(s, ";") {
 		pos := strings.IndexByte(param, '=')
 		if pos == -1 {
-			if param == "lr" {
-				sipUri.Parameters = append(sipUri.Parameters, KeyValue{Key: "lr", Value: ""})
-			} else {
-				return errors.New("invalid parameter format")
-			}
+			sipUri.Parameters = append(sipUri.Parameters, KeyValue{Key: param, Value: ""})
 		} else {
 			name := param[0:pos]
 			value := param[pos+1:]
